@@ -57,8 +57,8 @@ def gen_cases(ctx, n):
 
 
 def regenerate(ctx):
-    """coq/Gen/SmallGen.v from the current source of check_if_identity / AnalogSimParams.times / the scheduled-jump tests (fail closed)"""
-    translate_small.regenerate()
+    """coq/Gen/JumpTimeGen.v from the current source of the scheduled-jump tests (fail closed)"""
+    translate_small.regenerate(("jump",))
 
 
 def correspond(ctx):
